@@ -355,12 +355,24 @@ def _strip_cause(x):
         return [_strip_cause(v) for v in x]
     return x
 
+REQUEST_ID = "<<request id: any string>>"
+
 class ScriptedTasks(object):
     """Same outcome rule as harness.world.Worker: key = JSON text of the payload, '*' default, attempts counted per key."""
     def __init__(self, workers):
         self.workers = workers
         self.attempts = {}
     def __call__(self, resource, payload, now):
+        if str(resource) == "arn:aws:states:local::rpcmessage:invoke":
+            # the long form: the function is named by Parameters.FunctionName, its argument is Parameters.Payload ({} when absent) and
+            # the function's result comes back wrapped in invocation metadata
+            fn = payload.get("FunctionName") if isinstance(payload, dict) else None
+            if not (isinstance(fn, str) and fn.startswith("arn:aws:rpcmessage:")):
+                raise Unjudged("long-form invocation without a usable FunctionName")
+            r = self(fn, payload.get("Payload", {}), now)
+            if r[0] == "ok":
+                return ("ok", {"ExecutedVersion": "$LATEST", "Payload": r[1], "SdkResponseMetadata": {"RequestId": REQUEST_ID}, "StatusCode": 200})
+            return r
         if not str(resource).startswith("arn:aws:rpcmessage:"):
             raise Unjudged("service integration %s is outside the reference interpreter" % resource)
         fname = resource.rsplit(":", 1)[-1]
